@@ -31,7 +31,7 @@ import (
 func init() {
 	hlog.SetOutput(io.Discard)
 	hlog.SetLevel(hlog.LevelFatal)
-	standard.SetShutdownTickerForVerif(250 * time.Millisecond)
+	standard.SetShutdownTickerForVerif(300 * time.Millisecond) // not a divisor of the exit wait times: a poll that oversleeps the deadline is visible
 }
 
 // Client shapes.
@@ -462,11 +462,12 @@ func (w *World) final() {
 			w.violate("Shutdown call %d never returned", k)
 			continue
 		}
+		// whatever it returns (nil, a time-out error, "not running"), the call is over when the exit wait time is
+		if r.slackFree && r.end-r.start > sc.ExitWait {
+			w.violate("Shutdown call %d took %v of virtual time, ExitWaitTimeout is %v", k, r.end-r.start, sc.ExitWait)
+		}
 		if r.err == nil {
 			winners++
-			if r.slackFree && r.end-r.start > sc.ExitWait {
-				w.violate("Shutdown call %d took %v of virtual time, ExitWaitTimeout is %v", k, r.end-r.start, sc.ExitWait)
-			}
 			if l := verifrt.ListenerFor(listenAddr); l != nil && l.Accepts > r.acceptsAtReturn {
 				w.violate("a connection was accepted after Shutdown had returned")
 			}
